@@ -52,7 +52,7 @@ const (
 	tokIn  = "inside-token-51c2"
 )
 
-var outsideOnlyNames = map[string]bool{"secret": true, "sib": true, "sfile": true, "leak": true, "peer.txt": true, "hostsecret": true, "xsrc": true, "jxcopy": true}
+var outsideOnlyNames = map[string]bool{"secret": true, "sib": true, "sfile": true, "leak": true, "peer.txt": true, "hostsecret": true, "xsrc": true, "jxcopy": true, "keep": true}
 
 func (f *fixture) writeAll() error {
 	w := f.W
@@ -71,6 +71,13 @@ func (f *fixture) writeAll() error {
 			return err
 		}
 		if err := w.WriteFile("sib/sfile", []byte(tokOut+"-sib"), 0644); err != nil {
+			return err
+		}
+		// siblings whose names merely begin like the jail's own name
+		if err := w.WriteFile(jp+"s/keep", []byte(tokOut+"-plural"), 0644); err != nil {
+			return err
+		}
+		if err := w.WriteFile(jp+".old/keep", []byte(tokOut+"-old"), 0644); err != nil {
 			return err
 		}
 		// intermediate levels of a deep jail hold outside material too
@@ -256,6 +263,28 @@ func (f *fixture) snapshots() (outside, inside string) {
 		outside += "\nHOST\n" + strings.Join(lines, "\n")
 	}
 	return
+}
+
+// parentOutside: for views of a cache, what the PARENT (the cache itself) shows outside the jail –
+// pending operations of the child must not change it either ("" for other configurations).
+func (f *fixture) parentOutside() string {
+	if f.cache == nil || f.jailPath == "" || !strings.HasPrefix(f.kind, "cache-child") {
+		return ""
+	}
+	tree, _ := mfs.ObserveLimit(f.cache, 30, 100000)
+	parts := strings.Split(f.jailPath, "/")
+	n := tree
+	for i, s := range parts {
+		if n == nil || !n.Dir {
+			break
+		}
+		if i == len(parts)-1 {
+			delete(n.Kids, s)
+		} else {
+			n = n.Kids[s]
+		}
+	}
+	return tree.Dump()
 }
 
 // ---- hostile paths ----------------------------------------------------------------------------
@@ -485,7 +514,7 @@ func runPaths(c *sup.Child, b sup.Batch) {
 			}
 			defer os.RemoveAll(tmp)
 			var f *fixture
-			var out0, in0 string
+			var out0, in0, pout0 string
 			rebuild := func() bool {
 				os.RemoveAll(tmp)
 				os.MkdirAll(tmp, 0755)
@@ -494,6 +523,7 @@ func runPaths(c *sup.Child, b sup.Batch) {
 					return false
 				}
 				out0, in0 = f.snapshots()
+				pout0 = f.parentOutside()
 				return true
 			}
 			if !rebuild() {
@@ -548,6 +578,12 @@ func runPaths(c *sup.Child, b sup.Batch) {
 					wit := map[string]any{"config": kind, "call": cl.name + "(" + cl.args + ")"}
 					if pan != "" {
 						r.Violate("panic", fmt.Sprintf("[%s] %s(%s) panicked: %s", kind, cl.name, cl.args, pan), wit)
+					}
+					if pout0 != "" {
+						if pout1 := f.parentOutside(); pout1 != pout0 {
+							r.Violate("outside-changed", fmt.Sprintf("[%s] %s(%s) changed what the parent cache shows outside the view's root (before Commit):\n--- before\n%s\n--- after\n%s", kind, cl.name, cl.args, pout0, pout1), wit)
+						}
+						r.AddObs("parent_cache_outside_views_compared", 1)
 					}
 					if f.cache != nil {
 						func() {
